@@ -29,12 +29,24 @@ def main() -> None:
 
     with open(inp_path) as f:
         inputs = json.load(f)
+    again = os.environ.get("VERIF_DET_AGAIN") == "1"
     out = []
     for inp in inputs:
         events = []
         try:
             pids = PayloadIds()
             scfg = rb.build(inp, pids)
+            if again and inp["dom"] in ("X", "X5", "R", "K") and not inp.get("via_subgraphs"):
+                # "the same input graph": a second graph made of the SAME block objects, restructured in the SAME process after the
+                # first one has been (the first run must not leave anything behind - in the blocks it was given or anywhere else)
+                from numba_scfg.core.datastructures.scfg import SCFG as _SCFG
+
+                blocks0 = dict(scfg.graph)
+                try:
+                    scfg.restructure()
+                except Exception:
+                    pass
+                scfg = _SCFG(graph=dict(blocks0))
             st0 = project(scfg)
             events.append(json.dumps(["built", ordered(st0["H"]), ordered(st0["ord"]), ordered(st0["ng"])]))
             if inp["dom"] == "S":
